@@ -485,7 +485,9 @@ def S18.oweUpd (s : S18) : Ev → List Owe
   | _ => s.owe
 
 def bump (rs : Nat → RSt) (l : List Nat) : Nat → RSt :=
-  fun r => if r ∈ l then { rs r with credits := (rs r).credits + l.count r } else rs r
+  fun r =>
+    let q := rs r
+    if r ∈ l then { q with credits := q.credits + l.count r } else q
 
 /-- requests granted one more pool selection by a GOAWAY -/
 def goAwayGrants (s : S18) (c last mc : Nat) : List Nat :=
